@@ -13,10 +13,14 @@ import time
 import traceback
 
 VERIF = os.path.dirname(os.path.dirname(os.path.abspath(__file__)))
-HARNESS = os.path.join(VERIF, 'harness')
+# The registered checks always use /verif/harness, which path-depends on /repo.  The two environment overrides below
+# exist only for tools/seedlab.py, which evaluates seeded changes on scratch copies (own repo worktree, own harness
+# copy, own output directory) so that /repo and /verif/evidence are not disturbed.
+HARNESS = os.environ.get('VERIF_HARNESS') or os.path.join(VERIF, 'harness')
 REPO = '/repo'
-EVIDENCE_DIR = os.path.join(VERIF, 'evidence')
-REPLAY_DIR = os.path.join(VERIF, 'replays')
+_OUT = os.environ.get('VERIF_OUT') or VERIF
+EVIDENCE_DIR = os.path.join(_OUT, 'evidence')
+REPLAY_DIR = os.path.join(_OUT, 'replays')
 KNOWN_FINDINGS = os.path.join(VERIF, 'known_findings.txt')
 NPROC = min(16, os.cpu_count() or 4)
 
